@@ -6,4 +6,13 @@ import WellenModel.Model.Bits
 import WellenModel.Model.Store
 import WellenModel.Model.Spec
 import WellenModel.Proofs.Offset
+import WellenModel.Proofs.Pack
+import WellenModel.Proofs.Entry
+import WellenModel.Proofs.EntryRoundtrip
+import WellenModel.Proofs.Tables
+import WellenModel.Proofs.TimeTable
+import WellenModel.Proofs.Canon
+import WellenModel.Props.C02
+import WellenModel.Props.C04
 import WellenModel.Props.C05
+import WellenModel.Props.C06
